@@ -25,6 +25,7 @@ const void *blocked_on(int tid);                 // mutex / condvar / joined thr
 size_t choices_used();
 size_t switches();
 size_t points();
+size_t spurious_wakeups();                       // schedule bytes >= 128 additionally wake one parked thread without a signal
 const std::vector<uint8_t> &widths();             // alternatives available at each consumed choice (for systematic enumeration)
 
 // hooks (all optional).  on_deadlock must not return normally if it wants to report; default prints and _exit(3)
